@@ -2,6 +2,7 @@ import Verif.Util.Proto
 import Verif.Model.Types.Subtype
 import Verif.Model.Types.SubStruct
 import Verif.Model.Types.Wf
+import Verif.Model.Types.CoherentB
 import Verif.Gen.SubtypeRules
 /-! Driver for stream `types` (C08): ops `sub A B`, `refl A`, `bounds A`, `trans A B C`; types in the
     Polish notation of `stream_types.go`.  The model is the interpretation of the *regenerated* rules;
@@ -76,6 +77,17 @@ def parseType (s : String) : Option Ty :=
   | some (t, []) => some t
   | _ => none
 
+/-- the declared interfaces `N IF..` -/
+def parseDecls (s : String) : Option (List Iface) :=
+  let toks := (s.splitOn " ").filter (· != "")
+  match toks with
+  | n :: rest => match n.toNat? with
+    | some n => match parseIfaces (toks.length + 1) n rest with
+      | some (is, []) => some is
+      | _ => none
+    | none => none
+  | [] => none
+
 def bit (b : Bool) : String := if b then "1" else "0"
 
 def headTag : Ty → String
@@ -105,6 +117,30 @@ def fieldOf (go : String) (key : String) : String :=
   | none => ""
 
 def allSame (s : String) : Bool := match s.toList with | [] => false | c :: cs => cs.all (· == c)
+
+/-- `trans A B C` with the declarations `D`: the Go answers against the interpreted rules and the
+    structured relation; `thm` tags the operations on which every hypothesis of `trans_kindstable_partial`
+    holds (executable forms `cohB`/`goodB`, proved sufficient in `Proofs/SubCoh.lean`): there a failure of
+    transitivity would contradict the theorem, outside the kind-stable region it is the known finding. -/
+def judgeTrans (a b c : String) (D : List Iface) (go : String) : Verdict :=
+  match parseType a, parseType b, parseType c with
+  | some ta, some tb, some tc =>
+    let ab := isSub rules (fuelFor ta tb) ta tb
+    let bc := isSub rules (fuelFor tb tc) tb tc
+    let ac := isSub rules (fuelFor ta tc) ta tc
+    let m := bit ab ++ bit bc ++ bit ac
+    let mSt := bit (Struct.sub ta tb) ++ bit (Struct.sub tb tc) ++ bit (Struct.sub ta tc)
+    let ks := kindStable ta && stab false tc
+    let good := cohB D && goodB D ta && goodB D tb && goodB D tc
+    let tags := ["trans", "chain-" ++ bit ab ++ bit bc, (if ks then "kindstable" else "not-kindstable"),
+                 (if good then "good" else "not-good")] ++ (if good && ks then ["thm"] else []) ++
+                (if ab && bc then ["!nt"] else [])
+    if go.toList.contains 'P' then .violation "go-panic-or-internal" "booleans" tags
+    else if go == "110" then
+      .violation (if !ks then "trans-never-under-container" else "trans-failure")
+        "A <: B and B <: C imply A <: C" tags
+    else if go == m && go == mSt then .ok tags else .modelDiff (m ++ " st=" ++ mSt) tags
+  | _, _, _ => .skip "bad-type"
 
 def judge (op : List String) (go : String) : Verdict :=
   match op with
@@ -151,26 +187,17 @@ def judge (op : List String) (go : String) : Verdict :=
       if go != "111 111" then .violation "bounds-failure" "Never <: T <: Any in every implementation" tags
       else if m then .ok tags else .modelDiff "0" tags
     | none => .skip "bad-type"
-  | ["types", "trans", a, b, c] =>
-    match parseType a, parseType b, parseType c with
-    | some ta, some tb, some tc =>
-      let ab := isSub rules (fuelFor ta tb) ta tb
-      let bc := isSub rules (fuelFor tb tc) tb tc
-      let ac := isSub rules (fuelFor ta tc) ta tc
-      let m := bit ab ++ bit bc ++ bit ac
-      let mSt := bit (Struct.sub ta tb) ++ bit (Struct.sub tb tc) ++ bit (Struct.sub ta tc)
-      -- the region where `trans_kindstable_partial` proves transitivity: sub-most type kind-stable in
-      -- covariant position, super-most type in contravariant position; a failure outside it is the known finding
-      let ks := kindStable ta && stab false tc
-      let good := ta.wf && tb.wf && tc.wf && ta.anyTop && tb.anyTop && tc.anyTop
-      let tags := ["trans", "chain-" ++ bit ab ++ bit bc, (if ks then "kindstable" else "not-kindstable"),
-                   (if good then "wf" else "not-wf")] ++ (if ab && bc then ["!nt"] else [])
-      if go.toList.contains 'P' then .violation "go-panic-or-internal" "booleans" tags
-      else if go == "110" then
-        .violation (if !ks then "trans-never-under-container" else "trans-failure")
-          "A <: B and B <: C imply A <: C" tags
-      else if go == m && go == mSt then .ok tags else .modelDiff (m ++ " st=" ++ mSt) tags
-    | _, _, _ => .skip "bad-type"
+  | ["types", "decls", d] =>
+    match parseDecls d with
+    | some D =>
+      if cohB D then .ok ["decls", "coherent", "!nt"]
+      else .violation "declarations-incoherent" "unique interface names, conformance sets transitively closed within one kind" ["decls"]
+    | none => .skip "bad-decls"
+  | ["types", "trans", a, b, c] => judgeTrans a b c [] go
+  | ["types", "trans", a, b, c, d] =>
+    match parseDecls d with
+    | some D => judgeTrans a b c D go
+    | none => .skip "bad-decls"
   | _ => .skip "unknown-op"
 
 def main : IO Unit := runDriver judge
